@@ -403,6 +403,18 @@ theorem C01_translated_IntFamily_fractional_float_rejected (t : Str)
     runV cfgInt intToPython (.float (.lit t)) = some .invalid := by
   rw [intToPython_eq, ← Codec.C01_IntFamily_fractional_float_rejected .int (Or.inl rfl) t h]; rfl
 
+/-- the (c408a4f) rejection of a fractional float by a ForeignKey to an int-keyed class, on the translated
+    `ForeignKeyValidator.from_python` (first and later calls); a key to a str-keyed class is unchanged -/
+theorem C01_translated_ForeignKey_fractional_float_rejected (first : Bool) (t : Str)
+    (h : Codec.floatClass t = .fractional ∨ Codec.floatClass t = .nonfinite) :
+    runV (cfgFkInt first) fkFromPython (.float (.lit t)) = some .invalid := by
+  rw [fkFromPython_int_eq]
+  rcases h with h | h <;> simp [Codec.fkFromPython, h]
+
+example : runV (cfgFkInt true) fkFromPython (.float (.lit [50, 46, 53])) = some .invalid := by decide       -- 2.5
+example : runV (cfgFkInt true) fkFromPython (.float (.lit [50, 46, 48])) = some .unmodelled := by decide    -- 2.0
+example : runV (cfgFkStr true) fkFromPython (.float (.lit [50, 46, 53])) = some .unmodelled := by decide
+
 /-- PARTIAL (same excluded classes as `C01_accepted_readable_partial`), stated about the translated write chain: every
     value the SOURCE's `from_python` chain accepts is rejected by the statement or read back as a value that equals it
     or is its documented coercion -/
